@@ -221,8 +221,46 @@ def byvalue_case(rng):
     return {"case": case, "status": "ok"}
 
 
+STATE = r'''
+import json, os
+from executorlib import Executor
+
+def bump(tag):
+    import builtins, os
+    n = getattr(builtins, "_verif_counter", 0) + 1
+    builtins._verif_counter = n
+    return [os.getpid(), n, tag]
+
+out = {}
+with Executor(max_workers=NW, backend="local", block_allocation=False, disable_dependencies=DISDEP, hostname_localhost=True) as exe:
+    out["percall"] = [f.result(timeout=60) for f in [exe.submit(bump, k) for k in range(NCALLS)]]
+with Executor(max_workers=1, backend="local", block_allocation=True, disable_dependencies=DISDEP, hostname_localhost=True) as exe:
+    out["block1"] = [f.result(timeout=60) for f in [exe.submit(bump, k) for k in range(NCALLS)]]
+print(json.dumps(out))
+'''
+
+
+def state_case(rng):
+    nw, ncalls, disdep = rng.choice([1, 2, 3]), rng.choice([3, 4, 5]), rng.choice([True, False])
+    src = STATE.replace("NW", str(nw)).replace("NCALLS", str(ncalls)).replace("DISDEP", str(disdep))
+    rc, out, err = _run_script(src, timeout=120)
+    case = {"max_workers": nw, "calls": ncalls, "disable_dependencies": disdep}
+    try:
+        d = json.loads(out.strip().split("\n")[-1])
+    except Exception:  # noqa
+        return {"case": case, "status": "inconclusive", "why": "no result (rc=%s): %s" % (rc, err[-300:])}
+    pc, b1 = d["percall"], d["block1"]
+    if any(n != 1 for pid, n, tag in pc) or len({pid for pid, n, tag in pc}) != len(pc):
+        return {"case": case, "status": "fail",
+                "why": "per-call mode: calls saw interpreter state of other calls or shared a process: (pid, counter, call) = %r" % (pc,)}
+    if [n for pid, n, tag in b1] != list(range(1, ncalls + 1)) or len({pid for pid, n, tag in b1}) != 1 or [t for p, n, t in b1] != list(range(ncalls)):
+        return {"case": case, "status": "fail",
+                "why": "block allocation, one worker: not one persistent process executing the calls in submission order: %r" % (b1,)}
+    return {"case": case, "status": "ok"}
+
+
 def run_slice(kind, rng, n):
-    fn = {"wire": wire_case, "ghost": ghost_case, "byvalue": byvalue_case}[kind]
+    fn = {"wire": wire_case, "ghost": ghost_case, "byvalue": byvalue_case, "state": state_case}[kind]
     return [fn(rng) for _ in range(n)]
 
 
